@@ -146,6 +146,7 @@ func call(fn func()) (msg string, rte bool, panicked bool) {
 
 // Apply executes one step against the database and the model.
 func (s *Session) Apply(st *Step) Result {
+	defer func() { s.W.Stats.LastWasPersist = st.Kind == KPersist }()
 	switch st.Kind {
 	case KAdmin:
 		return s.applyAdmin(st.Admin)
